@@ -75,6 +75,7 @@ pub fn run_actual(case: &Case, strip: bool, ignore_include: bool) -> Result<(sv:
 pub struct ModelRun {
     pub out: String,
     pub chunks: Vec<Chunk>,
+    pub usage_marks: Vec<(usize, Label)>,
     pub table: Table,
     pub err: Option<ExpErr>,
     pub stats: ModelStats,
@@ -114,6 +115,7 @@ pub fn run_model(case: &Case, flags: Flags) -> ModelRun {
         },
         out: m.out,
         chunks: m.chunks,
+        usage_marks: m.usage_marks,
         table: m.table,
         err: r.err(),
     }
